@@ -30,7 +30,10 @@ try:
     sub("crates/vm/src/memory.rs", [(r"\baddress\b", "at"), (r"\bnew_len\b", "keep"), (r"\bvalues\b", "src_words")])
     sub("crates/vm/src/sync.rs", [(r"\|a, b\| Ok\(\(a < b\)", "|x, y| Ok((x < y)"), (r"\|a, b\| Ok\(\(a != 0 && b != 0\)", "|p, q| Ok((p != 0 && q != 0)"),
                                   (r"let \[w, addr\] = stack\.pop2\(\)\?;\n            memory\.store\(addr, w\)", "let [val, ix] = stack.pop2()?;\n            memory.store(ix, val)")])
-    sub("crates/check/src/solution.rs", [(r"\bsolution_index\b", "sol_ix")])
+    sub("crates/check/src/solution.rs", [(r"\bsolution_index\b", "sol_ix"),
+                                         # an extra captured variable and a different capture order in the per-solution closure
+                                         (r"        \.map\(\|\(sol_ix, \(solution, mut cache\)\)\| \{\n", "        .map(|(sol_ix, (solution, mut cache))| {\n            let _t = run_mode;\n            let _u = &config;\n            let _m = marker;\n"),
+                                         (r"    // Check each solution in parallel\.\n", "    let marker = 0usize;\n    // Check each solution in parallel.\n")])
     sub("crates/asm/src/effects.rs", [(r"\bkrng_byte\b", "k_byte"), (r"let mut effects = Effects::empty\(\);", "let mut found = Effects::empty();"), (r"effects \|= Effects::", "found |= Effects::"),
                                       (r"if effects == Effects::all\(\)", "if found == Effects::all()"), (r"    }\n    effects\n}", "    }\n    found\n}")])
     r = subprocess.run(["cargo", "check", "--workspace", "--offline", "-q"], cwd=S + "/repo", env=dict(os.environ, CARGO_TARGET_DIR="/verif/.cache/target-neutral"), stdout=subprocess.PIPE, stderr=subprocess.STDOUT, text=True)
